@@ -162,6 +162,14 @@ def rebuild(mol):
     for n, a in mol._atoms.items():
         if a.hybridization == 4:
             new._atoms[n]._implicit_hydrogens = a.implicit_hydrogens
+        elif a.implicit_hydrogens is not None and a.implicit_hydrogens != new._atoms[n].implicit_hydrogens and not a.is_forming_single_bonds:
+            # a metal may hold a hydride state that the tables list behind the first one ([AlH3] beside [Al]): calc_implicit() returns the first,
+            # the reader and the hydrogen operations keep the other. It is the molecule's state, not a stale value, if the tables accept it
+            try:
+                if new.check_implicit(n, a.implicit_hydrogens):
+                    new._atoms[n]._implicit_hydrogens = a.implicit_hydrogens
+            except Exception:
+                pass
     new.flush_cache()
     items = raw_stereo_items(mol)
     bad = T.attach_stereo(new, items, lambda x: x) if items else 0
